@@ -218,4 +218,16 @@ func csDoubleHop(shapes bool) {
 		verifAssert(csDelta(before, after, "supply/"+d).Sign() == 0, "swap mints/burns nothing")
 		verifAssert(csDelta(before, after, "module/"+d).Sign() == 0 && csDelta(before, after, "feecol/"+d).Sign() == 0, "bystander accounts untouched")
 	}
+	if shapes {
+		// C01 on every leg of a routed order: the constant-product rule with the configured fee charged on the
+		// input side - (reserve_in + (1-fee)*paid) * (reserve_out - received) >= reserve_in * reserve_out
+		e18 := verifPow10(18)
+		keep := verifSub(e18, e.k.GetParams(e.ctx).Fee.BigInt())
+		leg := func(rin, rout, paid, received *big.Int, what string) {
+			lhs := verifMul(verifAdd(verifMul(rin, e18), verifMul(keep, paid)), verifSub(rout, received))
+			verifAssert(lhs.Cmp(verifMul(rin, rout, e18)) >= 0, what)
+		}
+		leg(before["pool1/btc"], before["pool1/"+csStd], csDelta(before, after, "pool1/btc"), new(big.Int).Neg(csDelta(before, after, "pool1/"+csStd)), "first leg of a routed order is priced fee-inclusive")
+		leg(before["pool2/"+csStd], before["pool2/eth"], csDelta(before, after, "pool2/"+csStd), new(big.Int).Neg(csDelta(before, after, "pool2/eth")), "second leg of a routed order is priced fee-inclusive")
+	}
 }
